@@ -127,7 +127,7 @@ func checkC14(e *RunEnv) *CheckResult {
 				{Run("branch", "other"), Run("switch", "other"), Write("a", "other\n"), Run("add", "a"), Run("commit", "-m", "on other"), Run("switch", "main")},
 				{Run("branch", "twin"), Run("switch", "twin")},
 				{Run("rm", "a")}, // the staging area emptied: the history is unchanged
-				{Write("a", "hdr\n"), Run("add", "a"), Run("commit", "-m", "subject\nparent "+strings.Repeat("ab", 20)+"\ntree x\nauthor nobody")},
+				{Write("a", "hdr\n"), Run("add", "a"), Run("commit", "-m", "subject\nparent "+strings.Repeat("ab", 20)+"\nauthor A <a@b.co> 1 +0000")},
 			}
 			for vi, v := range variants {
 				for _, lg := range logs(L) {
